@@ -56,6 +56,9 @@ std::string AddrBytes(const Ip::Address &a) {
 int main() {
     // what Ip::ProbeTransport() establishes on a dual-stack host (the sandbox may have no IPv6 sockets)
     Ip::EnableIpv6 = IPV6_ON | IPV6_SPECIAL_V4MAPPING;
+    // squid.conf default: configuration_includes_quoted_values off (cache_cf.cc sets both flags to false)
+    ConfigParser::RecognizeQuotedValues = false;
+    ConfigParser::StrictMode = false;
     std::string line;
     while (std::getline(std::cin, line)) {
         auto t = U::Split(line);
